@@ -295,6 +295,11 @@ def report(a, P, props, results, bounded, known, seed, t0, world):
             baseline = json.load(f)
     base_clauses = set(baseline.get(prop, {}).get('clauses', []))
     min_obl = baseline.get(prop, {}).get('min_obligations', 1)
+    if P.get('level') == 'bounded':
+        # a property decided by the bounded stand-in only: the vacuity guard is the number of native evaluations
+        min_obl = 0
+        if not any((b.get('evaluations') or 0) > 0 for b in bounded):
+            crashes.append('bounded stand-in evaluated nothing (vacuity guard)')
     violations, undecided, crashes = [], [], []
     n_obl = n_dis = 0
     solver_time = 0.0
